@@ -183,7 +183,7 @@ def _clamp(x, lo, hi):
 
 def slice_params(s, n):
     """(start, length, step) of python slice s over a dimension of length n."""
-    start, stop, step = s
+    start, stop, step = s.start, s.stop, s.step
     if step is None:
         step = 1
     if not isinstance(step, int) or step == 0:
@@ -222,28 +222,29 @@ def _expand_key(key, rank):
             if seen:
                 raise Raised('IndexError', 'two ellipses')
             seen = True
-            out.extend([(None, None, None)] * (rank - n_real))
+            out.extend([slice(None)] * (rank - n_real))
         else:
             out.append(k)
     n_real2 = sum(1 for k in out if k is not None)
     if n_real2 > rank:
         raise Raised('IndexError', 'too many indices for array')
-    out.extend([(None, None, None)] * (rank - n_real2))
+    out.extend([slice(None)] * (rank - n_real2))
     return out
 
 
 def _is_slice(k):
-    return isinstance(k, tuple) and len(k) == 3
+    return isinstance(k, slice)
 
 
 def _is_full(k):
-    return _is_slice(k) and k == (None, None, None)
+    return isinstance(k, slice) and k.start is None and k.stop is None and k.step is None
 
 
 def _arr_kind(st, k):
     if isinstance(k, Masked):
         raise Unsupported("mask selection used as an index")
-    return info(st, k)[2]
+    kd = info(st, k)[2]
+    return 'int' if kd == 'nat' else kd
 
 
 def getitem(st, a, key):
@@ -363,7 +364,7 @@ def _getitem_masked(st, a, key):
         raise Unsupported("indexing the compressed axis of a mask selection")
     rest = list(key[1:])
     tail_shape = a.shape[a.mrank:]
-    keys = _expand_key(tuple(rest), len(tail_shape)) if rest else [(None, None, None)] * len(tail_shape)
+    keys = _expand_key(tuple(rest), len(tail_shape)) if rest else [slice(None)] * len(tail_shape)
     if any(is_array(k) for k in keys):
         raise Unsupported("advanced indexing of a mask selection")
     vshape, to_sub, _ = _basic_view(st, tail_shape, keys)
@@ -372,6 +373,20 @@ def _getitem_masked(st, a, key):
 
 
 def _getitem_fancy(st, shape, fn, kind, keys):
+    apos = [i for i, k in enumerate(keys) if is_array(k)]
+    if len(apos) == 1 and apos[0] > 0 and all(_is_full(k) for i, k in enumerate(keys) if i != apos[0]):
+        # a single index array on a later axis replaces that axis in place
+        p = apos[0]
+        ishape, ifn, ikind = info(st, keys[p])
+        r = len(ishape)
+        dim = shape[p]
+
+        def g1(idx):
+            j = ifn(tuple(idx[p:p + r]))
+            if ikind != 'nat':
+                j = norm_index(st, j, dim, check=False)
+            return fn(tuple(idx[:p]) + (j,) + tuple(idx[p + r:]))
+        return PureArr(tuple(shape[:p]) + tuple(ishape) + tuple(shape[p + 1:]), g1, kind)
     n_adv = 0
     for k in keys:
         if is_array(k) or not _is_slice(k):
@@ -381,24 +396,26 @@ def _getitem_fancy(st, shape, fn, kind, keys):
     if not all(_is_full(k) for k in keys[n_adv:]):
         raise Unsupported("advanced indexing followed by partial slices")
     adv = keys[:n_adv]
-    ishapes, ifns = [], []
+    ishapes, ifns, nats = [], [], []
     for ax, k in enumerate(adv):
         if is_array(k):
-            s, f, _ = info(st, k)
+            s, f, kd = info(st, k)
             ishapes.append(s)
             ifns.append(f)
+            nats.append(kd == 'nat')
         elif k is None:
             raise Unsupported("newaxis in advanced indexing")
         else:
             ishapes.append(())
             ifns.append((lambda k: lambda idx: k)(k))
+            nats.append(False)
     ishape = broadcast_shapes(st, ishapes)
     r = len(ishape)
     bf = [_bfn(s, f, r) for s, f in zip(ishapes, ifns)]
     dims = shape[:n_adv]
 
     def g(idx):
-        head = tuple(norm_index(st, b(tuple(idx[:r])), dims[i], check=False) for i, b in enumerate(bf))
+        head = tuple(b(tuple(idx[:r])) if nats[i] else norm_index(st, b(tuple(idx[:r])), dims[i], check=False) for i, b in enumerate(bf))
         return fn(head + tuple(idx[r:]))
     return PureArr(tuple(ishape) + tuple(shape[n_adv:]), g, kind)
 
@@ -589,7 +606,7 @@ def reduce_minmax(st, a, which):
         if r is None:
             raise Raised('ValueError', 'zero-size array to reduction operation')
         return r
-    m = fresh_real(which) if kind != 'int' else fresh_int(which)
+    m = fresh_real(which) if kind not in ('int', 'nat') else fresh_int(which)
     ks = [fresh_int('w') for _ in shape]
     inr = True
     for k, d in zip(ks, shape):
@@ -611,7 +628,7 @@ def zeros(shape, value=0.0, kind='real'):
 
 
 def arange(n):
-    return PureArr((n,), lambda idx: idx[0], 'int')
+    return PureArr((n,), lambda idx: idx[0], 'nat')
 
 
 def from_list(st, items, kind=None):
